@@ -94,8 +94,8 @@ def strand_decisions(ck, pc, calls):
     if set(calls) != {C(False), C(True)}:
         return
     corr = {}
-    for strand, (recv, a, e) in calls.items():
-        corr[strand] = e.term
+    for strand, (recv, a, e, term) in calls.items():
+        corr[strand] = term
     HOLE = V("<strand correlation>")
     tables = {C(False): {}, C(True): {}}
     n_paths = 0
@@ -103,7 +103,8 @@ def strand_decisions(ck, pc, calls):
         if pa.outcome not in ("return", "fall"):
             continue
         n_paths += 1
-        offered = {st: any(e.kind == "yield" and e.term == corr[st] for e in pa.events) for st in corr}
+        handed_back = list(pa.value[1]) if pa.outcome == "return" and pa.value is not None and pa.value[0] in ("list", "tuple") else []
+        offered = {st: any(e.kind == "yield" and e.term == corr[st] for e in pa.events) or corr[st] in handed_back for st in corr}
         guards = {st: [] for st in corr}
         for c, tv, node in pa.state.assumptions:
             m = [st for st in corr if T.contains(c, corr[st])]
@@ -171,7 +172,8 @@ def run(ck):
                      found=T.show(e.term)[:240])
             mentions = lambda seg: any(x == T.mk_attr(T.mk_attr(T.mk_attr(V(seg), en + "Position"), "query"), "position")
                                        for x in subs for en in ("start", "end"))
-            if mentions(prev) and mentions(cur) and not any(x[0] == "call" and x[1] in ("min", "max") for x in subs):
+            is_test = T.as_bool(e.term)[0] in ("lt", "le", "and", "or", "not", "eq", "ne") and e.term[0] != "poly"
+            if mentions(prev) and mentions(cur) and not is_test and not any(x[0] == "call" and x[1] in ("min", "max") for x in subs):
                 found = True
                 ck.judge(e.term == fwd, "C11.2", short(fn) + ":query-distance", w,
                          "query distance between chained segments = current start - previous end on both strands",
@@ -240,11 +242,21 @@ def run(ck):
     together = False
     for pa in explore(ck, pc):
         strands_here = set()
-        for e in pa.events:
-            if e.kind == "yield" and e.term[0] == "app" and e.term[1].endswith("getInitialAlignment"):
-                a = dict(e.term[3])
+        offered = [(e.term, e) for e in pa.events if e.kind == "yield"]
+        if pa.outcome == "return" and pa.value is not None and pa.value[0] in ("list", "tuple"):
+            # the seeds handed back as a list instead of being yielded one by one
+            last = pa.events[-1] if pa.events else None
+            offered += [(x, last) for x in pa.value[1]]
+        if pa.outcome == "return" and pa.value is not None and pa.value[0] == "comp" and len(pa.value[3]) == 1 \
+                and pa.value[2][0] == "bv" and pa.value[3][0][0][0] in ("tuple", "list"):
+            # [c for c in (forward, reverse) if <has peaks>(c)]: each element is offered under its own condition
+            last = pa.events[-1] if pa.events else None
+            offered += [(x, last) for x in pa.value[3][0][0][1]]
+        for term, e in offered:
+            if term[0] == "app" and term[1].endswith("getInitialAlignment"):
+                a = dict(term[3])
                 strand = a.pop("reverseStrand", C(False))
-                calls[strand] = (e.term[2], a, e)
+                calls[strand] = (term[2], a, e, term)
                 strands_here.add(strand)
         if strands_here == {C(False), C(True)}:
             together = True
@@ -256,7 +268,7 @@ def run(ck):
     ck.judge(ok, "C11.4", short(pc) + ":both-strands", pc.where, "forward and reverse correlations are both computed and offered as seeds",
              found=str([T.show(k) for k in calls]), required="reverseStrand False and True")
     if ok:
-        (r0, a0, e0), (r1, a1, e1) = calls[C(False)], calls[C(True)]
+        (r0, a0, e0, _t0), (r1, a1, e1, _t1) = calls[C(False)], calls[C(True)]
         ck.judge(r0 == r1 and a0 == a1, "C11.4", short(pc) + ":same-arguments", where(pc, e1.node),
                  "the reverse call differs from the forward call only in the strand flag",
                  found="; ".join(f"{k}: {T.show(a0.get(k, C(None)))} vs {T.show(a1.get(k, C(None)))}" for k in set(a0) | set(a1)
